@@ -37,9 +37,11 @@ CLAIMS = {
          "item(all(to_array(all(nulltest(sel(ds, setting)))))) for a Dataset and item(all(nulltest(sel))) for a DataArray, with nulltest = isnull or not-isfinite as "
          "requested; an unknown method raises ValueError) and parse_into_cases (every returned element is {**case, **zip(keys, setting)} for a requested case and "
          "combination at which is_case_missing holds (or no dataset was given), and every such requested location is returned: loop invariants over the case list and "
-         "the product). BOUNDED: replay/C13.py against an independent numpy oracle, including find_missing_cases and the find -> harvest -> find loop (quick tier).",
-         "assumed: xarray's sel / isnull / all / to_array / item semantics (named contracts), numpy.isfinite; find_missing_cases, result order and duplicate-freeness "
-         "are bounded only"),
+         "the product) and find_missing_cases (its nested generator evaluated eagerly: the report is exactly the set of product elements of the coordinate values at "
+         "which is_case_missing holds, with the requested method). BOUNDED: replay/C13.py against an independent numpy oracle, including the choice of non-ignored "
+         "dimensions, grid order, duplicates and the find -> harvest -> find loop (quick tier).",
+         "assumed: xarray's sel / isnull / all / to_array / item semantics (named contracts), numpy.isfinite; selection of the non-ignored dimensions, result order and "
+         "duplicate-freeness are bounded only; generator evaluated eagerly"),
  "C14": ("Discharged on the real auto_add_extension (string contract: a name containing a known extension is kept, otherwise the engine's extension is appended; the "
          "result always has one), save_ds (writes exactly one file, the one named auto_add_extension(name, engine), holding the dataset; for netCDF engines every "
          "None/True/False attribute becomes its string and nothing else changes, joblib/zarr keep attributes), load_ds (reads only that same name and returns what is "
